@@ -142,6 +142,7 @@ class Report:
             "vacuity_guards": self.guards,
             "not_covered": self.not_covered,
             "known_finding_obligations": known_obls,
+            "assumption_markers_in_contracts": scan_assumption_markers([os.path.join(VERIF, "contracts"), os.path.join(VERIF, "units")]),
             "undecided": self.undecided,
             "samples": ([o["name"] for o in self.obligations] + [b["name"] + " [bounded: " + str(b["bound"]) + "]" for b in self.bounded])[:40] or ["none"],
             "evaluations": max(1, n_obl + len(self.bounded)),
